@@ -242,7 +242,7 @@ Section SeatLight.
     { intros s5 g5 Hc Hlt Hk (pb3 & E3) Hne. rewrite J_pub by exact Hne. split; [exact Hlt|]. intros o5 Ho5.
       unfold core_of in Hc. inversion Hc as [[C1 C2 C3 C4 C5 C6 C7 C8 C9 C10 C11]]. unfold getop in Ho5, Ho3. rewrite C1, Ho3 in Ho5. inversion Ho5; subst o5.
       exists pb3. destruct (Hk pb3 E3) as (K1 & K2 & K3). splits; auto. }
-    unfold DeliveryWireDefs.J in HJ. destruct (g_ph g) as [| |pid d|pid|pid|pid|pid|pid] eqn:Eph.
+    unfold DeliveryWireDefs.J in HJ. destruct (g_ph g) as [| |pid d|pid|pid|pid|pid|pid|] eqn:Eph.
     - (* not a QoS 1/2 publish *)
       assert (Hp3 : pubq (op_packet o3) = false).
       { specialize (HJ o Ho). destruct Hrel as [->|(_ & pid & _ & Hw)]; [exact HJ|]. destruct (op_packet o); cbn in Hw; inversion Hw; subst; exact HJ. }
@@ -318,6 +318,7 @@ Section SeatLight.
           apply (Hjc s5); [exact Hc|lia| |eauto|cbn; discriminate]. intros pb' E'. rewrite Epb in E'. inversion E'; subst pb'.
           split; [exact Hq|]. split; [exact Hn|]. unfold DeliveryWireDefs.PJ. cbn [g_ph]. unfold bnd, noppub. splits; auto; try congruence; try lia; try (intros p; rewrite C7, Epp; apply P3).
     - (* GRelCur: seated already *) destruct HJ as [_ HJ]. destruct (HJ o Ho) as (pb & _ & _ & _ & HP). unfold DeliveryWireDefs.PJ in HP. rewrite Eph in HP. destruct HP as (P1 & _). congruence.
+    - (* GGone *) destruct HJ as [_ HJ]. destruct (HJ o Ho) as (pb & _ & _ & _ & HP). unfold DeliveryWireDefs.PJ in HP. rewrite Eph in HP. destruct HP.
   Qed.
 
   (* ---- operation i is completely written ---- *)
@@ -336,12 +337,13 @@ Section SeatLight.
     set (o' := o <| op_ext := Some now |>).
     assert (Ho' : getop s' i = Some o') by (unfold getop; rewrite Eops; apply lookup_update_eq; exact Ho).
     cbn [gnext]. rewrite N.eqb_refl. unfold DeliveryWireDefs.J in HJ.
-    destruct (g_ph g) as [| |pid d|pid|pid|pid|pid|pid] eqn:Eph.
+    destruct (g_ph g) as [| |pid d|pid|pid|pid|pid|pid|] eqn:Eph.
     { rewrite J_abs by exact Eph. intros o1 Ho1. rewrite Ho' in Ho1. inversion Ho1; subst o1. exact (HJ o Ho). }
     all: destruct HJ as [Hlt HJ]; destruct (HJ o Ho) as (pb & Epb & Hq & Hnm & HP); unfold DeliveryWireDefs.PJ in HP; rewrite Eph in HP.
     (* not seated in a live state *)
     all: try (exfalso; repeat match goal with H : _ /\ _ |- _ => destruct H end;
               match goal with H : dead_cur _ _ |- _ => exact (H Hc Hal) end).
+    all: try (exfalso; exact HP).
     all: assert (Epp : exists p, pkt_pid (op_packet o) = Some p /\ s_ppub s' = insert p i (s_ppub s))
       by (destruct Hsh as [(Hx & _)|[(p & Hp & _ & _ & Hx & _)|(p & _ & Hx & _)]];
           [rewrite Epb in Hx; cbn in Hx; destruct (pub_qos pb =? 0) eqn:E; [lia|discriminate]|exists p; auto|rewrite Epb in Hx; discriminate]).
